@@ -84,6 +84,8 @@ def mon_C01(ctx):
     E = ctx.E
     if ctx.exc is not None:
         ctx.bad('exception:%s' % type(ctx.exc).__name__, TRUE)
+        if isinstance(ctx.exc, TimeoutError):
+            ctx.bad('count-does-not-terminate', TRUE)
         return
     ctx.reach('count-returned')
     electable = ctx.electable()
@@ -396,7 +398,8 @@ def mon_C05(ctx):
                         conds.append(M * S > kk * q0[0] + allowance)
     ctx.reach('coalitions-checked')
     if conds:
-        ctx.bad('solid-coalition-underrepresented', z3.Or(*conds))
+        stable = any(a['tag'] == 'log' and a['msg'].startswith('Stable state detected') for a in E.erecord['actions'])
+        ctx.bad('solid-coalition-underrepresented' + (':after-stable-state-exit' if stable else ''), z3.Or(*conds))
 
 
 # ---------------------------------------------------------------------------------------------------
